@@ -17,7 +17,8 @@ class Rule:
     def __init__(self, name, pattern, insert, where="after", count=1, flags=re.M):
         """pattern: regex; the text `insert` is placed before/after the match (or
         after group 'at' if the pattern has a named group 'at': text is inserted
-        right after that group's end)."""
+        right after that group's end).  `insert` may be a function of the match object
+        (used for the per-round cut points, whose text names the matched variables)."""
         self.name = name
         self.pattern = pattern
         self.insert = insert
@@ -96,7 +97,8 @@ def apply(text, rules):
                 pos = m.start()
             else:
                 pos = m.end()
-            inserts.append((pos, r.insert, r.name))
+            ins = r.insert(m) if callable(r.insert) else r.insert
+            inserts.append((pos, ins, r.name))
             fired.append({"rule": r.name, "line": text.count("\n", 0, pos) + 1})
     inserts.sort(key=lambda t: t[0], reverse=True)
     out = text
